@@ -53,6 +53,7 @@ def run(ctx):
     p3(ctx, fx, I)
     p4(ctx, fx, I)
     p5(ctx, fx, I)
+    p6(ctx, fx)
     # P2 (well-formedness half): the text that is hashed into `_sd` / `...` is the JSON array ["salt", name, value] with the member's own name
     # JSON-encoded by serde (rule shared with C01.e): otherwise the digest at the claim's position is not that of a disclosure for this claim
     import c01
@@ -367,6 +368,23 @@ def p3(ctx, fx, I):
             ctx.finding("C05.P3", A, "always-visible", "the always-visible keys are not (removed -> marked -> appended) in that order on every path")
     else:
         ctx.finding("C05.P3", A, "always-visible", "cannot find the removal of exactly iss/iat/exp before marking and their re-insertion after (keys: %r)" % (keys,))
+
+
+def p6(ctx, fx):
+    """'every issued disclosure is referenced by exactly one digest': the disclosures an issuance emits are the ones it created — the
+    issuer's disclosure list does not survive from an earlier issuance (the field-flow rule of C11.S / C14.S6 for all_disclosures)"""
+    import c11
+    st = c11.stale_fields(fx, imodel.ISTRUCT, imodel.ISSUE)
+    if st is None:
+        ctx.missing("C05.P6", "issuer state", "cannot summarise the issuer's fields")
+        return
+    bad = [(f, sites) for (f, sites) in st if f == "all_disclosures"]
+    if bad:
+        (fname, line_, kind, desc) = bad[0][1][0]
+        ctx.finding("C05.P6", fx.fns.get(imodel.ISSUE), "stale:all_disclosures", "the issuer's disclosure list is not re-initialised by every issuance (first access is a %s in %s): an SD-JWT issued by a "
+                    "reused issuer carries disclosures of an earlier one, which no digest in its payload references" % ({"R": "read", "RMW": "read-modify-write"}[kind], fname), line=line_)
+    else:
+        ctx.ok("C05.P6", fx.fns.get(imodel.ISSUE), "fresh-disclosure-list", "every issuance starts from an empty disclosure list: what it emits is what it created")
 
 
 def p4(ctx, fx, I):
